@@ -262,14 +262,14 @@ func init() {
 						if isNullish(inputVal.DefaultValue) {
 							return nil, nil
 						}
-						astVal := astFromValue(inputVal.DefaultValue, inputVal)
+						astVal := astFromValue(inputVal.DefaultValue, inputVal.Type)
 						return printer.Print(astVal), nil
 					}
 					if inputVal, ok := p.Source.(*InputObjectField); ok {
 						if inputVal.DefaultValue == nil {
 							return nil, nil
 						}
-						astVal := astFromValue(inputVal.DefaultValue, inputVal)
+						astVal := astFromValue(inputVal.DefaultValue, inputVal.Type)
 						return printer.Print(astVal), nil
 					}
 					return nil, nil
